@@ -136,7 +136,40 @@ func (bufpipe) Check(obs any, res *sched.Result) (string, []sched.Finding) {
 	return "01234", nil
 }
 
-var all = []sched.Scenario{bufpipe{}, &counter{"racy", false}, &counter{"locked", true}, inversion{}, pipe{}}
+// closesync: a channel first seen by the model through a receive-only view and closed later must also be closed for
+// real when the execution is over (harnesses probe real channels after the run).
+type closesync struct{}
+
+var closesyncCh chan int
+
+func (closesync) Name() string { return "closesync" }
+func (closesync) Run() any {
+	ch := make(chan int)
+	closesyncCh = ch
+	done := sched.MakeChan[int](0)
+	sched.Go(func() {
+		var ro <-chan int = ch
+		sched.Recv(ro) // registers the channel through a receive-only view
+		sched.Send(done, 1)
+	})
+	sched.Go(func() {
+		var so chan<- int = ch
+		sched.Close(so)
+	})
+	return sched.Recv(done)
+}
+func (closesync) Check(obs any, res *sched.Result) (string, []sched.Finding) {
+	select {
+	case _, ok := <-closesyncCh:
+		if !ok {
+			return "closed", nil
+		}
+	default:
+	}
+	return "bad", []sched.Finding{{Class: "closesync_real_channel_left_open", What: res.Failure}}
+}
+
+var all = []sched.Scenario{closesync{}, bufpipe{}, &counter{"racy", false}, &counter{"locked", true}, inversion{}, pipe{}}
 
 func lookup(n string) sched.Scenario {
 	for _, s := range all {
@@ -152,7 +185,7 @@ func main() {
 		sched.WorkerMain(lookup)
 		return
 	}
-	want := map[string]string{"racy": "lost_update", "locked": "", "inversion": "deadlock", "pipe": "", "bufpipe": ""}
+	want := map[string]string{"racy": "lost_update", "locked": "", "inversion": "deadlock", "pipe": "", "bufpipe": "", "closesync": ""}
 	bad := false
 	for _, s := range all {
 		st, exh, left := sched.Explore([]sched.Scenario{s}, sched.Bounds{Preempt: 2, Faults: 0, Horizon: 500}, 4, time.Now().Add(30*time.Second), 0)
